@@ -24,6 +24,7 @@ SCALED = "pybrops.core.mat.DenseScaledMatrix"
 
 KNOWN_CONST = "C15-constant-trait-unit-scale-reported-as-spread"
 KNOWN_CONCAT = "C15-concat/append-ignore-location-and-scale"
+KNOWN_SUBCONCAT = "C15-ebv-gebv-concat_taxa-raises"
 
 
 def _cls(name):
@@ -148,9 +149,14 @@ class StructOps(Harness):
         n, t = self.params["n"], self.params["t"]
         return dict(R=_raw(mk, "r", n, t, [tuple(p) for p in self.params.get("nan", [])]), S=_raw(mk, "s", self.params.get("n2", 1), t))
 
+    def _excused(self):
+        return KNOWN_SUBCONCAT in getattr(self, "active_known", ()) and self.params["op"] == "concat" and self.params["cls"] in ("ebv", "gebv")
+
     def call(self, inp, mk):
         n, t, n2 = self.params["n"], self.params["t"], self.params.get("n2", 1)
         op = self.params["op"]
+        if self._excused():
+            return dict(excused=True)
         C = _cls(self.params["cls"])
         taxa, grp = _labels(n)
         taxa2, grp2 = _labels(n2, 10)
@@ -208,6 +214,9 @@ class StructOps(Harness):
         return dict(un=o.unscale(), rows=rows, taxa=[str(x) for x in o.taxa], tmean=o.tmean(unscale=True), tvar=o.tvar(unscale=True))
 
     def check(self, P, inp, out):
+        if out.get("excused"):
+            P.prove(True, "call-site-covered-by-a-known-finding")
+            return
         t = self.params["t"]
         rows = out["rows"]
         un = out["un"]
@@ -341,4 +350,13 @@ def replay_known(f):
         got = o.unscale().ravel().tolist()
         want = numpy.concatenate([numpy.array(w["a"], dtype=float), numpy.array(w["b"], dtype=float)]).ravel().tolist()
         return (not numpy.allclose(got, want)), "concat_taxa of raw %s and %s unscales to %s" % (w["a"], w["b"], got)
+    if f["id"] == KNOWN_SUBCONCAT:
+        from pybrops.popgen.bvmat.DenseEstimatedBreedingValueMatrix import DenseEstimatedBreedingValueMatrix as E
+        a = E.from_numpy(numpy.array(w["a"], dtype=float), taxa=numpy.array(["a0", "a1"], dtype=object), taxa_grp=numpy.array([0, 1]))
+        b = E.from_numpy(numpy.array(w["b"], dtype=float), taxa=numpy.array(["b0"], dtype=object), taxa_grp=numpy.array([2]))
+        try:
+            E.concat_taxa([a, b])
+        except TypeError as ex:
+            return True, "DenseEstimatedBreedingValueMatrix.concat_taxa raises TypeError: %s" % str(ex)[:120]
+        return False, "concat_taxa of the EBV subclass no longer raises"
     raise KeyError(f["id"])
